@@ -108,6 +108,28 @@ def run_property(prop, tier, replay=None):
             log(f"VIOLATION property={prop} replay={path}")
         exit_code = 1
 
+    # 6b. thorough tier: independent re-check of the compiled Props file and everything it depends on
+    coqchk = None
+    if tier == "thorough" and os.path.exists(os.path.join(common.COQ, "Props", prop + ".vo")):
+        rc, out, err = common.sh(["timeout", "2400", "coqchk", "-o", "-silent", "-Q", ".", "NGO", f"NGO.Props.{prop}"],
+                                 cwd=common.COQ, timeout=2500)
+        txt = out + err
+        import re as _re
+        m = _re.search(r"\* Axioms:(.*?)\n\s*\n\* Constants", txt, _re.S)
+        axioms = [a.strip() for a in (m.group(1).strip().splitlines() if m else []) if a.strip() and a.strip() != "<none>"]
+        bad = [a for a in axioms if not any(a.startswith(x) or x in a for x in ("Coq.Logic.Classical_Prop.classic",))]
+        coqchk = {"rc": rc, "axioms": axioms, "unexpected_axioms": bad}
+        log(f"[{prop}] coqchk rc={rc} axioms={axioms}")
+        ok = rc == 0 and not bad
+        obligations.append({"kind": "coqchk", "name": f"coqchk NGO.Props.{prop}", "discharged": ok,
+                            "note": "independent checker; axioms: " + (", ".join(axioms) or "none")})
+        if not ok:
+            violations.append(("obligation", {"broken": [obligations[-1]], "found": None}))
+            exit_code = 1
+            path = common.write_replay(prop, {"property": prop, "kind": "broken-obligation", "obligations": [obligations[-1]],
+                                              "note": "coqchk failed or reported an unexpected axiom"})
+            log(f"VIOLATION property={prop} replay={path} no-failing-input-found")
+
     # 7. evidence
     n_obl = len(obligations)
     n_dis = sum(1 for o in obligations if o["discharged"])
@@ -139,6 +161,7 @@ def run_property(prop, tier, replay=None):
         "oracle": oracle_stats,
         "translation_failed": bld.translation_failed,
         "modelled_not_verified": cfg.get("modelled", ""),
+        "coqchk": coqchk,
     }
     common.write_evidence(prop, tier, "proof", coverage, time.time() - t0, 0 if exit_code == 0 else len(violations),
                           assumptions=cfg.get("assumptions", []))
